@@ -11,10 +11,10 @@ CHECKS = {
  "C02": ("proptest: near-miss password mutators; oracle = exact InvalidLoginError + positive control",
          "Generated search over (password, near-miss mutation) pairs (bit flips, prefixes/extensions, NUL/space/newline, case, swaps, empty, 65535-byte pairs, len+256 with equal tail) per suite; wrong password must end in exactly InvalidLoginError, right password must succeed in the same sessions.",
          "Sampling. OPRF/hash collisions assumed impossible.", "5 C02"),
- "C03": ("proptest + exhaustive per-case enumeration of finalization mutants; oracle = acceptance model",
+ "C03": ("proptest + exhaustive per-case enumeration of finalization mutants (all bit flips / byte substitutions, publicly computable constants) + libFuzzer target server_finish (thorough) + corpus replay; oracle = acceptance model",
          "For generated pending server states (real, fake-record, wrong-password, answered-twice) every single-bit flip and every single-byte substitution of the genuine finalization plus cross-session/constant/random candidates is delivered to a clone; only the matching finalization may yield a key.",
          "Bit/byte substitutions are exhaustive per sampled state; states are sampled. MAC forgeries not generated are out of reach.", "5 C03"),
- "C04": ("proptest + per-case enumeration of response mutants (offset x value, field mixes, fresh fields); oracle = acceptance model with alias separation",
+ "C04": ("proptest + per-case enumeration of response mutants (offset x value, field mixes, fresh fields) + libFuzzer target login_response (thorough) + corpus replay; oracle = acceptance model with alias separation",
          "For generated honest logins every offset of the genuine credential response is substituted (thorough: all 255 values for fast/medium suites), all field-wise mixes with 7 other responses and fresh valid fields are tried on clones of the pending client state; only the genuine answers may be accepted.",
          "Sampling over sessions; enumeration bounds stated in evidence. Mutants that re-encode to a genuine response are aliases and left to C10.", "5 C04"),
  "C05": ("proptest: parameter triples in three families; oracle = effective-parameter match model, both directions",
@@ -26,7 +26,7 @@ CHECKS = {
  "C07": ("proptest histories + exhaustive routing enumeration; oracle = explicit acceptance model",
          "Per generated history (call order, shared/independent RNGs) over the bounded population of the property, every (request, record, credential id) server session, every response->client and every finalization->server delivery is executed on clones and compared with the matched-conversation model in both directions; session keys pairwise distinct.",
          "Routing is exhaustive for the bounded population per history; histories are sampled.", "5 C07"),
- "C08": ("proptest histories; oracle = structural equality with real responses, reference OPRF evaluation, pairwise freshness, client/server rejection",
+ "C08": ("proptest histories (built around two fake attempts for one request and a real login) + libFuzzer target server_start (thorough) + corpus replay; oracle = structural equality with real responses, reference OPRF evaluation, pairwise freshness, client/server rejection",
          "Generated sequences of fake attempts interleaved with real logins on one server tape: fake responses have the real length/structure, the evaluation element equals the reference oprf_key(seed,cred)*request and the real-record one, other fields differ across attempts, client fails with InvalidLoginError as for a wrong password, no finalization completes the fake state.",
          "'Unpredictable' is checked as inequality + witness to fresh draws, not computational indistinguishability.", "5 C08"),
  "C09": ("proptest differential against an independent RFC 9807/9497 reference model pinned by RFC vectors",
@@ -38,7 +38,7 @@ CHECKS = {
  "C11": ("proptest + table-driven invalid-encoding splicing through native/bincode/JSON decoders; independent validity predicate",
          "Every group-element/scalar field of every type gets every invalid encoding class (identity, off-curve, out-of-range, non-canonical/negative ristretto, small-order Curve25519 in all representable forms, zero/>=order scalars) with all other fields valid, through the native, bincode and JSON decoders; all must be rejected.",
          "Class table is applied exhaustively; values inside a class are sampled. Invalidity is confirmed by a predicate built on the curve crates.", "5 C11"),
- "C12": ("proptest + catch_unwind around every call; random/mutated decoder inputs, cross-session deliveries, parameter-length grid; libFuzzer targets (thorough)",
+ "C12": ("proptest + catch_unwind around every call: random/mutated decoder inputs, adversarial field values that are then used, cross-session deliveries, per-step over-limit refusal grid, awkward KSF parameters; libFuzzer targets decoders and server_start (thorough) + corpus replay",
          "No call may panic; in-range lengths complete, over-limit password/identity/context never complete a registration or login.",
          "Sampling; non-termination is reported as inconclusive by a watchdog.", "5 C12"),
  "C13": ("proptest differential: run with save/reload plans (native, bincode, JSON at 5 persistence points) vs uninterrupted run on equal tapes",
@@ -47,16 +47,16 @@ CHECKS = {
  "C14": ("proptest metamorphic relations between runs + reference OPRF evaluation",
          "Blind-independence of everything derived, dependence on password/credential id/seed, server evaluation a function of (seed, cred id, request) only.",
          "Sampling; 'unrelated' is checked as inequality.", "5 C14"),
- "C15": ("proptest over the KSF instance table with a journalling Ksf implementation and fault injection",
+ "C15": ("proptest over the KSF instance tables (journalling DynKsf, a zero-sized KSF type, the crate's Identity and Argon2 incl. algorithm/version/secret variants) with fault injection and cloned parameter structs",
          "Exactly one KSF call per client finish on the right instance and input; equal parameters succeed, different fail; explicit default == absent; injected failures surface as errors.",
          "6x6 instance table exhaustive per input; inputs sampled.", "5 C15"),
  "C16": ("proptest histories (register/re-register/login) against a model map + substring scan for secrets",
          "Export key stability and separation across histories; no export key, session key or long password occurs verbatim in any message or file.",
          "Sampling.", "5 C16"),
- "C17": ("proptest over tape pairs (equal, independent, spliced after byte n); determinism differential + freshness/witness matching",
+ "C17": ("proptest over tape pairs (equal, independent, spliced after byte n, zero-prefixed) + RNG fault injection at every call index; determinism differential, freshness, per-value tape-location relations",
          "Equal tapes give equal outputs (no hidden entropy); every random value varies with the tape, is pairwise distinct and is witnessed by a recorded draw.",
          "Sampling; the recording RNG is the only entropy source offered.", "5 C17"),
- "C18": ("proptest differential direct key vs RemoteKey implementation of SecretKey + fault injection at every call index",
+ "C18": ("proptest differential direct key vs journalling RemoteKey implementation of SecretKey (raw and handle-serialising) + fault injection at every call index of login start, registration start, key-pair construction and setup restore",
          "Byte-identical outputs with an external key using only public_key/diffie_hellman; a failure at call n is returned as that error without output, for every n.",
          "Fault positions exhaustive per sampled input.", "5 C18"),
  "C19": ("proptest algebraic laws + differential against curve crates and reference DeriveDiffieHellmanKeyPair",
@@ -98,7 +98,9 @@ def main():
         },
         "engines": [
             {"name": "vharness", "path": "/verif/harness", "serves_properties": ids,
-             "kind_free_text": "Rust crate (stable toolchain): proptest-driven generated search with explicit oracles (RFC reference model, acceptance models, metamorphic/differential relations), per-case bounded enumeration, shrinking to replay files"},
+             "kind_free_text": "Rust crate (stable toolchain): proptest-driven generated search with explicit oracles (RFC reference model, acceptance models, metamorphic/differential relations), per-case bounded enumeration, fault injection (RNG, KSF, external key), shrinking to replay files"},
+            {"name": "vfuzz", "path": "/verif/fuzz", "serves_properties": ["C03", "C04", "C08", "C10", "C11", "C12"],
+             "kind_free_text": "cargo-fuzz / libFuzzer targets (nightly) decoders, login_response, server_finish, server_start; oracles live in the harness library, so the committed corpus is replayed by the stable binary in the quick tier and crashes are confirmed on the production profile"},
         ],
         "checks": checks,
         "notes": "Genuine defects found and repaired in /repo by 'fix:' commits are listed in /verif/known_findings.json (status fixed; they suppress nothing). Exit codes: 0 held, 1 VIOLATION, 2 INCONCLUSIVE (build failure, watchdog, oracle self-test failure).",
